@@ -51,6 +51,12 @@ func (r *vDribbleReader) Read(p []byte) (int, error) {
 
 var zSharedList = []int32{4, 5, 6}
 
+type ZFold struct {
+	UserID int32
+	UserId int32
+	Userid string
+}
+
 type vBufWriter struct{ b []byte }
 
 func (w *vBufWriter) Write(p []byte) (int, error) {
@@ -73,8 +79,10 @@ func zStreamValue(kind int, tag string, shared *ZInner) interface{} {
 	switch kind {
 	case 0:
 		return zSmall(tag)
-	case 1:
-		return "t" + string(rune('a'+zSmall(tag)%26))
+	case 1: // a short string with one arbitrary code point of any UTF-8 width
+		return string([]rune{'t', vScalar(tag), 'z'})
+	case 18: // two fields whose names are equal under case folding
+		return &ZFold{UserID: zSmall(tag), UserId: 7, Userid: "u"}
 	case 2:
 		return &ZInner{N: zSmall(tag), S: "s"}
 	case 3:
@@ -147,6 +155,10 @@ func zStreamEq(kind int, a, b interface{}) bool {
 	case 17:
 		x, ok := b.(*ZEmpty)
 		return ok && x != nil
+	case 18:
+		x, ok := b.(*ZFold)
+		w := a.(*ZFold)
+		return ok && x != nil && x.UserID == w.UserID && x.UserId == 7 && x.Userid == "u"
 	case 2, 4:
 		x, ok := b.(*ZInner)
 		return ok && x != nil && eqZInner(a.(*ZInner), x)
@@ -197,7 +209,7 @@ func H_C06_stream() {
 		n = 3
 	}
 	shared := &ZInner{N: 42, S: "shared"}
-	tm, nm := vExtractAll(&ZOuter{P: &ZInner{}}, &ZEmpty{}, []int32{}, map[string]int32{"k": 1}, zManyClasses(19, 0, -1))
+	tm, nm := vExtractAll(&ZOuter{P: &ZInner{}}, &ZEmpty{}, &ZFold{}, []int32{}, map[string]int32{"k": 1}, zManyClasses(19, 0, -1))
 	kinds := make([]int, n)
 	vals := make([]interface{}, n)
 	for i := range vals {
@@ -205,7 +217,7 @@ func H_C06_stream() {
 			// third value (thorough tier): the kinds that refer back to earlier messages or are referred to
 			kinds[i] = []int{0, 2, 4, 5, 13, 14}[vChoice("kind3", 6)]
 		} else {
-			kinds[i] = vChoice("kind", 18)
+			kinds[i] = vChoice("kind", 19)
 		}
 		vals[i] = zStreamValue(kinds[i], "v", shared)
 	}
